@@ -37,6 +37,11 @@ pub struct Cfg {
     /// layer (what tower::ServiceBuilder and shared stacks do)
     #[serde(default)]
     pub via: Via,
+    /// a flow rule with the Throttling strategy (2 per second, queueing up to 10 s) is loaded on
+    /// the same resource: requests are delayed, never rejected by it; admission and release are
+    /// what they are without it
+    #[serde(default)]
+    pub throttled: bool,
 }
 #[derive(Serialize, Deserialize, Clone, Copy, Debug, PartialEq, Default)]
 pub enum Via {
@@ -182,6 +187,9 @@ impl Subject for C20 {
         reset_world(T0_MS);
         // entries leaked by a previous sequence live on the old node, which reset_world dropped
         isolation::load_rules(vec![Arc::new(isolation::Rule { id: "iso".into(), resource: RES.into(), threshold: self.cfg.threshold, ..Default::default() })]);
+        if self.cfg.throttled {
+            sentinel_core::flow::load_rules(vec![Arc::new(sentinel_core::flow::Rule { id: "thr".into(), resource: RES.into(), threshold: 2.0, stat_interval_ms: 1000, control_strategy: sentinel_core::flow::ControlStrategy::Throttling, max_queueing_time_ms: 10_000, ..Default::default() })]);
+        }
         self.calls = Arc::new(AtomicUsize::new(0));
         let role = if self.cfg.server { ServiceRole::Server } else { ServiceRole::Client };
         let inner = Inner::new(self.calls.clone());
@@ -379,9 +387,14 @@ pub fn run(o: &Opts, stats: &mut Stats) -> Option<usize> {
         for fallback in [Fallback::None, Fallback::OkResponse, Fallback::Err] {
             for server in [true, false] {
                 for via in [Via::Direct, Via::Layer, Via::ClonedLayer] {
-                    cfgs.push(Cfg { threshold, fallback, server, via });
+                    cfgs.push(Cfg { threshold, fallback, server, via, throttled: false });
                 }
             }
+        }
+    }
+    for threshold in [1u32, 2] {
+        for server in [true, false] {
+            cfgs.push(Cfg { threshold, fallback: Fallback::OkResponse, server, via: Via::Direct, throttled: true });
         }
     }
     let thorough = o.thorough;
